@@ -4,6 +4,7 @@ import TsRsVerif.Lemmas.SortedStr
 import TsRsVerif.Lemmas.MergeLemmas
 import TsRsVerif.Lemmas.DedupLemmas
 import TsRsVerif.Lemmas.HistoryMulti
+import TsRsVerif.Lemmas.WalkOrder
 /-!
 # C13 — bindings are a deterministic function of the source and configuration
 
@@ -102,5 +103,47 @@ theorem C13_schedule_independent (slots : List Slot) (w : World) (sched₁ sched
     ∃ w₁ w₂, runOps slots w sched₁ = (w₁, true) ∧ runOps slots w sched₂ = (w₂, true) ∧
       w₁.fs.cwd = w₂.fs.cwd ∧ ∀ l, w₁.fs.lookup l = w₂.fs.lookup l :=
   multi_order_independent slots w sched₁ sched₂ hperm hs hok hp hreg
+
+/-- **the order in which dependencies are visited does not reach the files**: two tables that differ only in the order (and
+multiplicity) of every type's dependency list — what a different iteration order of a hash-based collection, or a reordering inside
+the derive, amounts to; identifiers, output paths and generated texts are the same (the texts do not depend on that order either:
+`C13_export_to_string_perm`) — give `export_all` walks from the same root that visit the same types in possibly different orders, and
+whenever both succeed they leave the same regular files with the same contents everywhere (`Lemmas/WalkOrder.lean`). -/
+theorem C13_walk_order_independent (u₁ u₂ : Export.Universe) (hsame : SameUpToDepOrder u₁ u₂) (slots : List TSlot) (dir : Str)
+    (gen : Nat → GenT) (rel : Nat → Str) (slotOf : Nat → Nat) (f₁ f₂ : Nat) (w w₁ w₂ : World) (i : Nat) (s₁ s₂ : List Nat)
+    (h₁ : Export.exportRec u₁ f₁ w [] dir i = some (w₁, s₁, .ok)) (h₂ : Export.exportRec u₂ f₂ w [] dir i = some (w₂, s₂, .ok))
+    (htab : ∀ j, Export.Reach u₁ i j → TableOK u₁ slots dir gen rel slotOf j)
+    (hs : TSlotsOK w.fs slots)
+    (hsp : ∀ j, Export.Reach u₁ i j → ∀ s, slots[slotOf j]? = some s → Path.absolute (Export.cwdStr w.fs) (Path.join dir (rel j)) = .ok s.path)
+    (hgen : ∀ j, Export.Reach u₁ i j → GenOK (gen j))
+    (hname : ∀ j j', Export.Reach u₁ i j → Export.Reach u₁ i j' → slotOf j = slotOf j' → (gen j).name = (gen j').name → j = j')
+    (hident : ∀ j j', Export.Reach u₁ i j → Export.Reach u₁ i j' → slotOf j = slotOf j' → (gen j).ident = (gen j').ident → j = j')
+    (hp : w.poisoned = false) (hreg : ∀ s ∈ slots, Export.regGet w.reg (Export.regKey s.path) = none) :
+    ∀ l c, w₁.fs.lookup l = some (.file c) ↔ w₂.fs.lookup l = some (.file c) :=
+  walk_order_independent u₁ u₂ hsame slots dir gen rel slotOf f₁ f₂ w w₁ w₂ i s₁ s₂ h₁ h₂ htab hs hsp hgen hname hident hp hreg
+
+/-! non-vacuity: a root with two dependencies sharing one file, visited in the two possible orders -/
+def exWA : GenT := ⟨"Alpha".toList, "Alpha".toList, [("./deep/shared".toList, ["Beta".toList, "Gamma".toList])], "export type Alpha = { b: Beta, c: Gamma, };".toList⟩
+def exWB : GenT := ⟨"Beta".toList, "Beta".toList, [], "export type Beta = number;".toList⟩
+def exWC : GenT := ⟨"Gamma".toList, "Gamma".toList, [], "export type Gamma = string;".toList⟩
+def exWGen : Nat → GenT := fun j => if j = 0 then exWA else if j = 1 then exWB else exWC
+def exWRel : Nat → Str := fun j => if j = 0 then "Alpha.ts".toList else "deep/shared.ts".toList
+def exWU (deps0 : List Nat) : Export.Universe := [0, 1, 2].map fun j =>
+  { ident := (exWGen j).ident, outputPath := some (exWRel j), text := .ok (genText (exWGen j)), deps := if j = 0 then deps0 else [] }
+def exWW : World := { fs := { nodes := [(["w".toList], .dir)], cwd := ["w".toList] }, reg := [] }
+example : SameUpToDepOrder (exWU [1, 2]) (exWU [2, 1, 2]) := by
+  refine ⟨rfl, ?_⟩
+  intro k t₁ t₂ h1 h2
+  rcases k with _ | _ | _ | k
+  · simp [exWU] at h1 h2; subst h1; subst h2; simp
+  · simp [exWU] at h1 h2; subst h1; subst h2; simp
+  · simp [exWU] at h1 h2; subst h1; subst h2; simp
+  · simp [exWU] at h1
+#guard ((Export.exportRec (exWU [1, 2]) 8 exWW [] "./out".toList 0).map fun r => r.2.1) == some [2, 1, 0]
+#guard ((Export.exportRec (exWU [2, 1, 2]) 8 exWW [] "./out".toList 0).map fun r => r.2.1) == some [1, 2, 0]
+#guard [["w".toList, "out".toList, "deep".toList, "shared.ts".toList], ["w".toList, "out".toList, "Alpha.ts".toList]].all fun l =>
+  ((Export.exportRec (exWU [1, 2]) 8 exWW [] "./out".toList 0).bind fun r => r.1.fs.lookup l)
+    == ((Export.exportRec (exWU [2, 1, 2]) 8 exWW [] "./out".toList 0).bind fun r => r.1.fs.lookup l)
+  && ((Export.exportRec (exWU [1, 2]) 8 exWW [] "./out".toList 0).bind fun r => r.1.fs.lookup l).isSome
 
 end TsRs
